@@ -1461,17 +1461,21 @@ let expression_from_string s =
 let eval_pow a b =
   if Z.leb Z0 b
   then Ok (Z.pow a b)
-  else if Z.eqb a Z0
-       then Err ZeroDivErr
-       else if Z.eqb a (Zpos XH)
-            then Ok (Zpos XH)
-            else if Z.eqb a (Zneg XH)
-                 then Ok (if Z.even b then Zpos XH else Zneg XH)
-                 else if Z.ltb (Z.abs a)
-                           (Z.pow (Zpos (XO XH)) (Zpos (XO (XO (XO (XI (XO
-                             (XI (XI (XI (XI XH)))))))))))
-                      then Ok Z0
-                      else Err Unmodelled
+  else if (||)
+            (Z.leb
+              (Z.pow (Zpos (XO XH)) (Zpos (XO (XO (XO (XI (XO (XI (XI (XI (XI
+                XH))))))))))) (Z.abs a))
+            (Z.leb
+              (Z.pow (Zpos (XO XH)) (Zpos (XO (XO (XO (XI (XO (XI (XI (XI (XI
+                XH))))))))))) (Z.abs b))
+       then Err Unmodelled
+       else if Z.eqb a Z0
+            then Err ZeroDivErr
+            else if Z.eqb a (Zpos XH)
+                 then Ok (Zpos XH)
+                 else if Z.eqb a (Zneg XH)
+                      then Ok (if Z.even b then Zpos XH else Zneg XH)
+                      else Ok Z0
 
 (** val eval_bin : op -> z -> z -> z res **)
 
